@@ -41,6 +41,7 @@ type gqlSpec struct {
 	get      bool   // transport GET instead of POST
 	mutation bool   // type mutation instead of query
 	vars     string // "none" | "param" | "static"
+	long     bool   // a longer operation text (another body length)
 }
 
 type beSpec struct {
@@ -139,6 +140,9 @@ func gqlExtra(g *gqlSpec) map[string]interface{} {
 		m["operationName"] = "M"
 	} else {
 		m["type"] = "query"
+	}
+	if g.long {
+		m["query"] = m["query"].(string) + " # a considerably longer operation text, so that the body length differs from the sibling's"
 	}
 	switch g.vars {
 	case "param":
@@ -1003,7 +1007,7 @@ func describe(bs []beSpec) string {
 	for _, b := range bs {
 		fmt.Fprintf(&sb, "[%s %v %v %s", b.method, b.hdrs, b.qs, b.pattern)
 		if b.gql != nil {
-			fmt.Fprintf(&sb, " gql:%v:%v:%s", b.gql.get, b.gql.mutation, b.gql.vars)
+			fmt.Fprintf(&sb, " gql:%v:%v:%s:%v", b.gql.get, b.gql.mutation, b.gql.vars, b.gql.long)
 		}
 		sb.WriteString("]")
 	}
